@@ -630,7 +630,7 @@ func checkErrorViz(c *Case, tr *Trace, m *Model, vg *vizGraph, e int, ii *Invoke
 		for _, h := range cands {
 			miss := map[string]bool{}
 			for _, lf := range h.Leaves {
-				if !lf.Opt && !lf.IsGroup && m.ExpectSingle(h, lf.Key) == nil {
+				if !lf.Opt && !lf.IsGroup && m.NoSource(h, lf.Key) {
 					miss[keyNodeID(lf.Key)] = true
 				}
 			}
